@@ -146,7 +146,9 @@ func (s *Service) Handle(ctx context.Context, conn net.Conn) error {
 						_, _ = vals.WriteString(s)
 					}
 
-					header = append(header, event.Custom("smtp."+key, vals.String()))
+					// header names come from the client: event keys must be valid
+					// UTF-8 or the channels cannot carry them in JSON
+					header = append(header, event.Custom("smtp."+strings.ToValidUTF8(key, "?"), vals.String()))
 				}
 
 				s.ch.Send(event.New(
